@@ -35,6 +35,7 @@ REVERT_TARGETS = {
     "asynchronous_interrupt": ["C04"], "last_updated_ms": ["C01"], "legacy_JSON": ["C07", "C14"],
     "filters_in_memory": ["C12"], "validate_scan_filters": ["C12"], "reorders_or_renu": ["C11"],
     "ETag_before": ["C08"], "table_root_itself": ["C17"], "unreadable_inflight_marker": ["C07"],
+    "hint_nonascii": ["C10"],
 }
 
 
